@@ -12,9 +12,9 @@ from ..gen import tables as T
 
 TYPES = ['integer', 'number', 'boolean', 'date', 'time', 'datetime', 'year', 'string', 'array', 'object']
 VALID = {
-    'integer': ['12', '-3', '0', 7, '1000000000000'],
+    'integer': ['12', '-3', '0', 7, '1000000000000', 1, 0, 1],
     'number': ['1.5', '-2.25', '1e3', '0', '10', {'d': '3.75'}],
-    'boolean': ['true', 'false', 'True', 'FALSE', '1', '0', True, False],
+    'boolean': ['true', 'false', 'True', 'FALSE', '1', '0', True, False, True],
     'date': ['2020-01-31', '1999-12-01', {'date': '2024-02-29'}],
     'time': ['12:30:00', '00:00:01', {'time': '23:59:59'}],
     'datetime': ['2020-01-31T10:00:00Z', '1999-12-01T23:59:59Z'],
@@ -23,7 +23,7 @@ VALID = {
     'array': ['[1, 2]', '[]', '["x"]', {'l': [1, 'a']}],
     'object': ['{"a": 1}', '{}', {'o': {'k': 'v'}}],
 }
-BAD = {'integer': ['bad!', '1.5', 'x12', '--3'], 'number': ['bad!', '1,5x', 'one'], 'boolean': ['maybe', 'yes!', '2'], 'date': ['31/01/2020', '2020-13-45', 'bad!'],
+BAD = {'integer': ['bad!', '1.5', 'x12', '--3', True, False, {'f': '1.0'}], 'number': ['bad!', '1,5x', 'one', True], 'boolean': ['maybe', 'yes!', '2', 1, 0, {'f': '1.0'}], 'date': ['31/01/2020', '2020-13-45', 'bad!'],
        'time': ['25:00:00', 'noon'], 'datetime': ['2020-01-31', 'bad!'], 'year': ['20x0', 'bad!'], 'array': ['{"a": 1}', 'bad!', '[1,'], 'object': ['[1]', 'bad!']}
 POLICIES = ['raise', 'drop', 'ignore', 'clear', 'custom4', 'custom5', 'default']
 
@@ -45,7 +45,9 @@ def _run(payload, sub):
     for ti, t in enumerate(sc['tables']):
         fields = []
         for f in t['fields']:
-            if step['kind'] == 'set_type' and f.get('checked'):
+            if step['kind'] == 'set_type' and f.get('checked') and step['set_types'] and step['set_types'][0].get('no_type'):
+                fields.append({'name': f['name'], 'type': f['type']})
+            elif step['kind'] == 'set_type' and f.get('checked'):
                 fields.append({'name': f['name'], 'type': 'string' if all(isinstance(r[ci], str) or r[ci] is None for r in t['rows'] for ci in [t['fields'].index(f)]) else 'any'})
             else:
                 fields.append(field_desc(f))
@@ -77,7 +79,9 @@ def _run(payload, sub):
             opts = dict(st.get('options') or {})
             if st.get('transform'):
                 opts['transform'] = {'strip': (lambda v: v.strip() if isinstance(v, str) else v), 'rowaware': (lambda v, row=None, field_name=None: v)}[st['transform']]
-            links.append(DF.set_type(st['name'], type=st['type'], resources=st.get('resources', -1), regex=st.get('regex', True), **opts, **kw))
+            if not st.get('no_type'):
+                opts['type'] = st['type']
+            links.append(DF.set_type(st['name'], resources=st.get('resources', -1), regex=st.get('regex', True), **opts, **kw))
     ds = DF.Flow(*links).datastream()
     try:
         rows = [list(r) for r in ds.res_iter]
@@ -112,7 +116,7 @@ class C14(Prop):
     ASSUMPTIONS = ['"Table Schema\'s cast" = tableschema.Field(descriptor, missing_values=[""]).cast_value', 'rows are observed through datastream() (the step\'s raw output)']
     REAL_VS_STUB = {'real': ['dataflows set_type / validate / schema_validator, tableschema casts'], 'stub': ['corrupt-cell injector between source and step', 'logging custom handlers answering by a seeded pattern']}
     PROBES = ['two-sites-in-one-row', 'site-in-first-row', 'site-in-last-row', 'required-null', 'regex-multi-field', 'resources-selected', 'transform', 'constraint-minimum', 'date-format',
-              'failing-field-followed-by-lexical-field'] + ['policy:' + p for p in POLICIES]
+              'failing-field-followed-by-lexical-field', 'set_type-without-type-argument', 'equal-values-of-different-python-types'] + ['policy:' + p for p in POLICIES]
     TIERS = {'quick': dict(runs=2000, wall=100, run_wall=120),
              'thorough': dict(runs=60000, wall=1700, run_wall=300)}
     SHRINK_FROZEN = ('fields',)
@@ -173,6 +177,14 @@ class C14(Prop):
                 fs = fs[:1]
                 st = {'name': fs[0]['name'], 'type': ty, 'regex': rng.random() < 0.5}
             st['options'] = fs[0].get('options')
+            if ty in ('integer', 'number') and (st['options'] or {}).get('constraints', {}).get('minimum') is not None and rng.random() < 0.6:
+                # the field is already typed and holds native values; set_type only tightens it (no type= argument): rows must still be re-checked
+                st['no_type'] = True
+                for f in fs:
+                    ci = t['fields'].index(f)
+                    for row in t['rows']:
+                        if row[ci] is not None:
+                            row[ci] = int(row[ci]) if not isinstance(row[ci], dict) else row[ci]
             st['resources'] = rng.choice([ti, t['name'], [t['name']], ti - ntab])
             if rng.random() < 0.15:
                 st['transform'] = rng.choice(['strip', 'rowaware'])
@@ -204,8 +216,8 @@ class C14(Prop):
             f = rng.choice(cand)
             if (f.get('options') or {}).get('constraints', {}).get('required') and rng.random() < 0.6:
                 val = None
-            elif (f.get('options') or {}).get('constraints', {}).get('minimum') is not None and rng.random() < 0.5:
-                val = '-99'
+            elif (f.get('options') or {}).get('constraints', {}).get('minimum') is not None and (rng.random() < 0.5 or (step.get('set_types') and step['set_types'][0].get('no_type'))):
+                val = -99 if (step.get('set_types') and step['set_types'][0].get('no_type')) else '-99'
             elif f['type'] == 'string':
                 continue
             else:
@@ -344,6 +356,8 @@ class C14(Prop):
         seen = {}
         for s in sites:
             seen.setdefault((s[0], s[1]), []).append(s)
+            if isinstance(s[3], bool) or (isinstance(s[3], int) and s[3] in (0, 1)) or (isinstance(s[3], dict) and 'f' in s[3]):
+                ctx.probe('equal-values-of-different-python-types')
             if s[1] == 0:
                 ctx.probe('site-in-first-row')
             if s[1] == len(sc['tables'][s[0]]['rows']) - 1:
@@ -365,6 +379,8 @@ class C14(Prop):
                 ctx.probe('resources-selected')
             if any(st.get('transform') for st in step['set_types']):
                 ctx.probe('transform')
+            if any(st.get('no_type') for st in step['set_types']):
+                ctx.probe('set_type-without-type-argument')
         for t in sc['tables']:
             for f in t['fields']:
                 o = f.get('options') or {}
